@@ -24,6 +24,20 @@ CLAIMS = {
          "an incomplete buffer gives ErrPacketNotComplete and consumes nothing; a prefix below 4 is refused; the blocking extractor returns a whole frame or an error, never a partial frame. "
          "Arrival patterns are discharged by the prefix-stability lemmas (a complete frame stays the same frame whatever arrives after it; the length field depends on the first four octets only), proved from T0.",
          "ConnReader / io.ReadFull behave as the interface comment says (A-CONN); the induction over the chunk sequence that combines the per-call contract with the lemmas is a paper step. "),
+ "C05": ("ASCII codec proved (isASCII loop, identity image, refusal); coding-number functions proved by case analysis over all numbers; DecodeCMPPCContent / DecodeSMPPCContent proved to select, for every 8-bit / int coding number, "
+         "the decoder of the coding that the encoders select for the same number and to refuse every other number with ErrUnsupportedDataCoding; lemma: given the inverse law of the assumed codecs, the selected decoder inverts the selected encoder; "
+         "septet packing/unpacking (the packed GSM 7-bit codec's lower half) proved bit-exactly under C08 with exactly the property's end-of-message carve-out.",
+         "ASSUMED, not proved (A-XTEXT): Latin-1 (Windows-1252), UCS-2, GB18030 and unpacked GSM 7-bit are thin wrappers over x/text transformers; their 'either fail or emit what the decoder inverts' law is the property itself for those codings and is taken as hypothesis (uninterpreted xenc/xdec/xok). The rune-level meaning of gsm7encoding.Encode/Decode is not proved either (see C08). "),
+ "C06": ("splitWithUDHI proved (loop invariant) to produce exactly ceil(n/per) parts, part k being the 6-octet header followed by octets [per*k, min(per*(k+1), n)) of the encoded data - pointwise, so nothing is lost, repeated or reordered; "
+         "EncodeCMPPContentAndSplit / EncodeSMPPContentAndSplit proved over all coding numbers: the reported coding is the requested one when it is valid and its codec accepts the text, UCS-2 otherwise, an error only if UCS-2 fails too; a message that fits is one part without header; "
+         "the packed GSM 7-bit splitter proved with recursive spec functions (cut points, part count) to cover the septet string exactly once. Repaired: D11, D12, D26.",
+         "The codecs other than ASCII are assumed (A-XTEXT); 'concatenating the ranges [per*k, ...) gives the whole string' is the telescoping step left on paper; Pack's and Encode's values are named by uninterpreted functions at call sites (A-DET). "),
+ "C07": ("Same contracts, size side: every part is the header 05 00 03 ref total seq followed by at most 134 octets (153 septets), non-empty, seq = k+1, total = number of parts <= 255, more than 255 parts refused with an error (proved for the generic and the packed splitter); "
+         "the part count is the minimum ceil(n/per) (packed: greedy cuts). ParseLongSmsContent proved in bit-vector mode for all strings: the 6-octet and the 7-octet (16-bit reference) forms return exactly the header values and the rest, everything else is 'not concatenated'. Repaired: D12, D13.",
+         ""),
+ "C14": ("Packed GSM 7-bit path: every cut point k satisfies septet[k-1] != ESC (from Encode's proved output discipline: ESC is always followed by an extension code, never by ESC), for all messages. "
+         "Generic splitter: the boundary clauses (no UTF-16 high surrogate / no unpacked ESC immediately before a cut) are stated and FAIL - known finding D14, replayed on every run.",
+         "GB18030 two-octet boundaries are not stated (no scanner spec); D14 covers them informally. "),
  "C08": ("Pack and Unpack proved bit-exactly against TS 23.038 6.1.2.1.1 for all lengths (bit-vector + array obligations, loop invariants per 8-septet block, CR filler, the end-of-message carve-out exactly as stated in the property); "
          "the four alphabet tables compared entry by entry with the independently transcribed TS 23.038 table (ground); Encode proved to emit only table codes with every ESC followed by an extension code and to refuse other runes; "
          "Decode / ValidateGSM7Buffer proved total, terminating and within the allocation budget.",
@@ -46,6 +60,12 @@ CLAIMS = {
  "C17": ("Bit-vector proofs over all 2^64 ids: CombineMsgID places each in-range field at the CMPP bit positions, SplitMsgID returns those fields, split-then-combine is the identity, "
          "every split field is below its decimal print width.",
          "The decimal string form goes through fmt.Sprintf/Sscanf (%0Nd): assumed (A-FMT), not proved. "),
+ "C18": ("smpp34.findSubValue, smgp30.findSubValue (both key spellings), findSMGPIDValue and both ExtractDeliveryReceipt proved per call against strings.Index's defining property: the value returned for a key is exactly the characters after the first occurrence of `key:` up to the next space or the end "
+         "(SMGP: cut to the field width; id: hex of the ten octets after `id:`), empty if the key is absent, never a panic; the CMPP status-report body (SubPduDeliveryContent) is proved like the PDUs of C01/C02. Repaired: D7.",
+         "Assumed, not proved (A-TOK): that for receipts built from the eight keys in any order and subset the first occurrence of each key token is its field (a combinatorial fact about the fixed token set under the property's value restrictions). strings.Index is an assumed model. "),
+ "C19": ("ToValidatePeriod proved for all parsable durations below 4096 h: zero -> empty string; negative or unparsable -> error; relative form = 0000 DD hh mm ss 000R with the four fields equal to the integer quotients of the nanosecond count, 16 characters, "
+         "and a lemma (pure integer arithmetic) that the fields add up to the duration in whole seconds; a relative period of 31 days or more is refused; absolute form = Format(now+d) ++ 000+, 16 characters. Repaired: D20.",
+         "package time, fmt %02d and the float64 duration accessors are assumed models (A-TIMEPKG, A-FMT2, A-FLOAT: exact below 4096 h, nothing claimed above); the two-digit year of the absolute form (D27: now+d a century ahead) is outside what these models can express and is NOT decided. "),
  "C20": ("Contracts on every method of packet.Writer and packet.Reader (append-only view, written==len(view) invariant, sticky errors, readers never return more than remains, "
          "observer-form clauses used by the PDU level) proved against the SSA of the real bodies; the T1 bridge lemmas 'read primitive inverts write primitive' are re-proved from T0 on every run. "
          "Operation histories are covered by the data-structure invariant, not by enumeration.", ""),
